@@ -58,6 +58,24 @@ LAX_TABLE = [
     ("int", (("max_length", "Lax(2)"),)), ("float", (("max_digits", "Lax(3)"), ("decimal_places", "Lax(1)"))),
 ]
 
+# lax and strict constraints mixed in one declaration: validators run in the documented order
+# (docs/en/references/rule.md), so the strict one must hold on the value the lax one produced
+MIXED_TABLE = [
+    ("int", (("le", "Lax(10)"), ("multiple_of", "3"))), ("int", (("ge", "Lax(1)"), ("multiple_of", "2"))),
+    ("int", (("ge", "0"), ("multiple_of", "Lax(3)"))), ("int", (("le", "Lax(10)"), ("max_digits", "1"))),
+    ("list", (("max_length", "Lax(2)"), ("unique_items", "True"))), ("list", (("min_length", "2"), ("max_length", "Lax(2)"))),
+    ("str", (("max_length", "Lax(3)"), ("regex", "'[a-z]+b'"))), ("str", (("min_length", "2"), ("max_length", "Lax(3)"))),
+    ("Decimal", (("le", "Lax(Decimal('10'))"), ("decimal_places", "1"))),
+    ("Decimal", (("max_digits", "3"), ("decimal_places", "Lax(1)"))),
+    ("float", (("ge", "Lax(0.0)"), ("lt", "1.0"))),
+    ("tuple", (("max_length", "Lax(2)"), ("unique_items", "True"))),
+]
+
+
+def mixed_specs(routes=("cls",)):
+    return constrained_specs(routes, MIXED_TABLE)
+
+
 def _n(expr, origin, *cons):
     return ("n", expr, ("r", origin, tuple(cons), "cls"))
 
